@@ -268,8 +268,9 @@ for _y in (1, 2, 3):
 
 
 def _make_prefixed():
-    """A type whose name has the name of type 1 (unlimited, pickle cache) as a prefix: T1pNc1x next to T1pNc1."""
-    name = 'T1pNc1x'
+    """A type whose name has the name of type 1 (unlimited, pickle cache) as a prefix, contains a double underscore and
+    ends with an underscore: T1pNc1__x_ next to T1pNc1."""
+    name = 'T1pNc1__x_'
     ns = {'__annotations__': {'tid': int, 'a': Any, 'b': Any, 'beh': str},
           'a': None, 'b': (), 'beh': 'ok', 'run': run_body, '__module__': __name__, '__qualname__': name}
     cls = labtech.task(cache=RecCache(), max_parallel=None)(type(name, (), ns))
